@@ -302,8 +302,16 @@ fn lit_str(cs: &[char]) -> Option<String> {
 
 /// a uiua expression that evaluates to the value (marks excepted), when one is easy to write
 fn literal(v: &Value) -> Option<String> {
-    if uiua::verif::map_dump(v).is_some() {
-        return None;
+    if let Some((_, _, _, fix_depth)) = uiua::verif::map_dump(v) {
+        if fix_depth > 0 {
+            return None;
+        }
+        // keys on top, values beneath
+        let st = run_uiua_with("°map", &[v.clone()]).ok()?;
+        if st.len() != 2 || uiua::verif::map_dump(&st[0]).is_some() || uiua::verif::map_dump(&st[1]).is_some() {
+            return None;
+        }
+        return Some(format!("(map {} {})", literal(&st[1])?, literal(&st[0])?));
     }
     let shape: Vec<usize> = v.shape.iter().copied().collect();
     let wrap = |flat: String| -> String {
@@ -913,7 +921,7 @@ fn mismark(r: &mut Rng, v: &mut Value) {
 /// regression corpus: the inputs on which the monitor found mis-marked or malformed values
 /// before the fix: commits (35ff854, f306b49, eea1d01, ade6601, 60de79d, 9703aa4, e1a3340,
 /// f50d52f, 7af2e92, 3374592, f64950a); replayed first by every search that starts at case 0
-const REGRESSION: [&str; 41] = [
+const REGRESSION: [&str; 45] = [
     "¯\"abc\"",
     "⌊⍆[ℂ5 1.2 ℂ0 1.7]",
     "⌈⍆[ℂ5 1.2 ℂ0 1.7]",
@@ -956,6 +964,11 @@ const REGRESSION: [&str; 41] = [
     "⬚0+ ↯2_3_0 π ↯2_2_4 π",
     "/◇⊂⍚(⊂0) []",
     "≡(4 ¯) [1 2]",
+    // round 4 (4f6a49b, 047a6f3)
+    "+ [1 2 3 4] map 5 6",
+    "≠ map 3 3 [9 2 1 6]",
+    "∊⇡2 ⍆[0 1 2 3]",
+    "∊⇡2 map [1 2 3 4] ⍆[0 1 2 3]",
 ];
 
 static PROGRESS: std::sync::atomic::AtomicU64 = std::sync::atomic::AtomicU64::new(u64::MAX);
